@@ -91,7 +91,7 @@ struct Server { std::unique_ptr<cppcms::service> srv; std::thread th; int http_p
 		fprintf(stderr,"harness error: could not start a service on a private port\n"); vf::C().harness_error=true; }
 	bool hung_at_stop=false;
 	// stop the service; if its event loop does not leave run() within 8 s it is stuck: the thread is abandoned (the shard process exits soon after) and the fact recorded
-	void stop(){ if(srv){ srv->shutdown(); for(int i=0;i<800&&!run_returned;i++) usleep(10000); if(run_returned){ if(th.joinable()) th.join(); srv.reset(); } else { hung_at_stop=true; th.detach(); srv.release(); } } }
+	void stop(){ if(srv){ if(!run_returned) srv->shutdown(); /* service::shutdown() calls exit(1) when run() has already gone (its notification socket is closed) - e.g. after a failed bind */ for(int i=0;i<800&&!run_returned;i++) usleep(10000); if(run_returned){ if(th.joinable()) th.join(); srv.reset(); } else { hung_at_stop=true; th.detach(); srv.release(); } } }
 	bool alive() const { return !run_returned; } };
 
 enum Proto { HTTP=0, SCGI=1, FCGI=2 }; static const char *PROTO_NAME[]={"http","scgi","fastcgi"};
